@@ -40,6 +40,7 @@ static int64_t  newborn = -1;
 static int      cur_marks[MAXID]; static int ncur_marks;
 static char     obsbuf[65536]; static int obslen; static int obs_set;
 static long     n_ph, n_th, n_ms, n_sw, n_nest;
+static int      in_teardown;
 #define MAXSPAWN 4
 static int      spawn[MAXID][MAXSPAWN]; static int nspawn[MAXID];   /* objects the destructor of <id> allocates */
 static var      PObj;
@@ -112,7 +113,8 @@ static void* lc_hook_realloc(void* p, size_t n) {
       if (gc->entries[i].hash == 0) continue;
       int64_t id = id_of(gc->entries[i].ptr);
       if (opt_override) {
-        bool m = (id >= 0 && id == newborn);
+        /* the real mark phase marks every root; a teardown has no mark phase */
+        bool m = (id >= 0 && id == newborn) || (gc->entries[i].root && !in_teardown);
         for (int k = 0; k < ncur_marks && !m; k++) if (cur_marks[k] == id) m = true;
         gc->entries[i].marked = m;
       }
@@ -237,7 +239,7 @@ static int __attribute__((noinline)) run_ops(char* ops) {
       GC_Mark(G); GC_Sweep(G);
     } else if (c == 's') { stop(current(GC)); }
     else if (c == 'S') { start(current(GC)); }
-    else if (c == 't') { return 1; }
+    else if (c == 't') { in_teardown = 1; return 1; }
     else { P(" | BADCASE"); return 0; }
     emit_state(0);
   }
